@@ -117,6 +117,10 @@ func runC04(r *core.Run) {
 			kg = []colGen{genKeyHostile, genKeyText}
 			kind = "hostile"
 		}
+		if c%7 == 5 {
+			kg = []colGen{genKeyDTWrap, genKeyText}
+			kind = "dtwrap"
+		}
 		vgen := colGen(genHalf)
 		mixed := rng.Intn(3) == 0
 		if mixed {
@@ -197,6 +201,9 @@ func runC04(r *core.Run) {
 				}
 				break
 			}
+			if kind == "dtwrap" {
+				compressNumeric(keys)
+			}
 			rankStrings(keys)
 			add(sql, "bucket:partition:"+kind, cpu, map[string]interface{}{"kind": "partition", "keys": keys, "vals": vals, "res": per}, t.Rows)
 		case 0: // DISTINCT
@@ -210,6 +217,9 @@ func runC04(r *core.Run) {
 				break
 			}
 			keys := projectCells(t.Rows, kidx...)
+			if kind == "dtwrap" {
+				compressNumeric(keys, res)
+			}
 			rankStrings(keys, res)
 			add(sql, "bucket:distinct:"+kind, cpu, map[string]interface{}{"kind": "distinct", "keys": keys, "res": cellsJSON(res)}, t.Rows)
 		case 1: // GROUP BY with aggregates
@@ -282,6 +292,9 @@ func runC04(r *core.Run) {
 			if groups == nil {
 				groups = []map[string]interface{}{}
 			}
+			if kind == "dtwrap" {
+				compressNumeric(keys, reskeys)
+			}
 			rankStrings(keys, reskeys)
 			add(sql, "bucket:group:"+kind, cpu, map[string]interface{}{"kind": "group", "keys": keys, "vals": vals, "res": groups}, t.Rows)
 		case 2: // set operators
@@ -301,6 +314,9 @@ func runC04(r *core.Run) {
 				break
 			}
 			A, B := projectCells(t.Rows, kidx...), projectCells(u.Rows, kidx...)
+			if kind == "dtwrap" {
+				compressNumeric(A, B, res)
+			}
 			rankStrings(A, B, res)
 			sig := "bucket:" + op
 			if all {
